@@ -21,6 +21,7 @@ def main(argv):
         print(f"property {a.prop} has no check (see MANIFEST.json not_applicable)")
         return 2
     t0 = time.time()
+    C.TIER = a.tier
     try:
         if a.replay:
             return mod.replay(a.replay)
